@@ -97,12 +97,15 @@ def mergeAll (p : Nat) (this : Array Nat) (others : List (Array Nat)) : Array Na
 def getBytes (p : Nat) (ws : Array Nat) : Bytes :=
   beN 4 p ++ (encI 4 (ws.size : Int) ++ encMany (beN 4) ws.toList)
 
-/-- `BuildHyperLogLog(bytes)`: `none` where the code returns nil or panics -/
+/-- `BuildHyperLogLog(bytes)`: `none` where the code returns nil or panics.  Same order as the
+    code: precision, word count (`make` panics on a negative count), the words, and only then
+    `NewHyperLogLog` validates the precision (nil above 30). -/
 def build : P (Nat × Array Nat) :=
   P.bind (rdU 4) (fun p =>
   P.bind (rdI 4) (fun n =>
-    if n < 0 ∨ 30 < p then .fail else
-    P.bind (decMany (rdU 4) n.toNat) (fun ws => .pure (p, ws.toArray))))
+    if n < 0 then .fail else
+    P.bind (decMany (rdU 4) n.toNat) (fun ws =>
+      if 30 < p then .fail else .pure (p, ws.toArray))))
 
 /-! ### Cardinality -/
 
